@@ -213,6 +213,21 @@ let () =
               (* not in the property's list: only consistency is required; the type is recorded *)
               count (Printf.sprintf "boundary_ct_%d_to_%d" (int_of_ct old) (int_of_ct (geom_ct r)));
               r
+            | "newpoint" ->
+              (* NewPoint(Coordinates{...}): arg = type and the four fields as given, then type and
+                 the four fields that Point.Coordinates() reports *)
+              (match String.split_on_char ',' arg with
+               | [ct; x; y; z; mm; ot; ox; oy; oz; om] ->
+                 let ct = ct_of_int (int_of_string ct) in
+                 let given = { vx = n_of_hex x; vy = n_of_hex y; vz = n_of_hex z; vm = n_of_hex mm } in
+                 let obs = MkPoint (ct_of_int (int_of_string ot),
+                                    Some { vx = n_of_hex ox; vy = n_of_hex oy; vz = n_of_hex oz; vm = n_of_hex om }) in
+                 if not (consistent_n (GPoint obs)) then
+                   fail id "SPEC" "new_point_unused_fields" (trunc ("NewPoint(" ^ arg ^ ")"));
+                 if new_point_n ct given <> obs then fail id "CORR" "new_point" (trunc ("NewPoint(" ^ arg ^ ")"));
+                 if given.vz <> N0 && not (ct_has_z ct) || given.vm <> N0 && not (ct_has_m ct) then count "junk_given"
+               | _ -> fail id "CORR" "unknown_op" ("newpoint " ^ arg));
+              r
             | "interp" ->
               if geom_ct r <> old then fail id "SPEC" "interp_ctype" (trunc (where ^ " -> " ^ res));
               r
